@@ -277,7 +277,7 @@ def plan_for_setting(row, tier, seed):
                           "variant": variant})
     # the same orbit representatives given with negative / > 1 coordinates (shifted by lattice vectors): identical unit cell
     reps0 = [o[0] for o in orbs][:120]
-    shifts = [(-1, 0, 0), (0, 2, -1), (-3, 1, 2), (4, -2, 0), (-6, -6, 5)]
+    shifts = [(-1, 0, 0), (0, 2, -1), (-3, 1, 2), (4, -2, 0), (-6, -6, 5), (-7, 9, -12), (11, -8, 0)]
     shifted = [tuple(p[k] + shifts[i % len(shifts)][k] * N for k in range(3)) for i, p in enumerate(reps0)]
     cases.append({"number": number, "choice": choice, "D": N, "sites": shifted, "cell": cells[0], "slab": None, "z0": 3, "variant": "lattice-shifted"})
     # containers / dtypes of the positions array: integer-typed (sites with integer coordinates), nested lists, float32
